@@ -224,7 +224,7 @@ def _parse_attribute_value(s: str) -> Union[int, float, str]:
         t = m.group(1)
         if t in replace_table:
             return replace_table[t]
-        elif t.startswith("x") or t.startswith("u"):
+        elif t.startswith("x") or t.startswith("u") or t.startswith("U"):
             return chr(int(t[1:], 16))
         else:
             return chr(int(t, 8))
@@ -243,7 +243,7 @@ def _parse_attribute_value(s: str) -> Union[int, float, str]:
         if quote_char in t:
             raise ValueError("Invalid attribute value syntax {!r}".format(s))
         # Expand escape sequences.
-        s = re.sub("\\\\(['\"abfnrtv]|\\\\|[0-7]{1,3}|x[0-9a-fA-F]{2}|u[0-9a-fA-F]{4})", replace_esc, s)
+        s = re.sub("\\\\(['\"abfnrtv]|\\\\|[0-7]{1,3}|x[0-9a-fA-F]{2}|u[0-9a-fA-F]{4}|U00(?:0[0-9a-fA-F]|10)[0-9a-fA-F]{4})", replace_esc, s)
         return s
 
     elif re.match(r"^[+-]?[0-9]*$", s):
